@@ -324,7 +324,10 @@ func (r *Run) publisher(p int, seed int64, count int, startIdx int) {
 			if i+n > end {
 				n = end - i
 			}
-			binaryMode := r.sc.Mode == "bytes" || rng.Intn(2) == 0
+			binaryMode := rng.Intn(2) == 0
+			if r.sc.Mode == "bytes" {
+				binaryMode = rng.Intn(3) != 0
+			}
 			var recs []*pubRec
 			var buf bytes.Buffer
 			if binaryMode {
@@ -333,7 +336,16 @@ func (r *Run) publisher(p int, seed int64, count int, startIdx int) {
 			for j := 0; j < n; j++ {
 				key, body := r.makeBody(rng, p, i)
 				if !binaryMode {
+					// '\n' is the only byte the text framing reserves; everything else, a trailing CR included, is body
 					body = bytes.ReplaceAll(body, []byte("\n"), []byte("_"))
+					switch rng.Intn(6) {
+					case 0:
+						body = append(body, '\r')
+					case 1:
+						body = append(body, '\r', '\r')
+					case 2:
+						body = append(body, ' ', '\t')
+					}
 				}
 				recs = append(recs, r.record(key, topic, body, 0, "HMPUB"))
 				i++
@@ -341,8 +353,13 @@ func (r *Run) publisher(p int, seed int64, count int, startIdx int) {
 				if binaryMode {
 					buf.Write(lenPrefixed(body))
 				} else {
+					if j > 0 && rng.Intn(5) == 0 {
+						buf.WriteByte('\n') // an empty line between two messages: skipped, not a message
+					}
 					buf.Write(body)
-					buf.WriteByte('\n')
+					if j < n-1 || rng.Intn(3) != 0 {
+						buf.WriteByte('\n') // the last line may end without a newline
+					}
 				}
 			}
 			path := "/mpub?topic=" + topic
